@@ -1,6 +1,6 @@
 // Repro for finding string_raw_cr.md (property C04, conformance of the spelling).
 // Drop into a scratch copy of /repo as pdf/tests/string_raw_cr_repro.rs and run
-//   CARGO_TARGET_DIR=/verif/.cache/native-target cargo test --offline -p pdf --test string_raw_cr_repro -- --test-threads 1
+//   CARGO_TARGET_DIR=/tmp/serial_leaf_target cargo test --offline -p pdf --test string_raw_cr_repro -- --test-threads 1
 // Pinned tree: `iso_reader_gets_the_same_bytes` FAILS, `own_parser_gets_the_same_bytes` passes (the crate's lexer
 // keeps a raw CR, which is itself a deviation from 7.3.4.2 and hides the writer's defect from a self round trip).
 // With findings/string_raw_cr_fix.diff applied both pass.
